@@ -40,6 +40,9 @@ const KINDS: &[&str] = &[
     "many-enum-variants-dense",
     "many-terminal-variants-dense",
     "long-path-then-syntax-error",
+    "long-rhs-late-lookahead",
+    "chain-grammar-with-back-edge",
+    "long-rhs-left-recursive",
 ];
 
 pub fn n_stress(tier: Tier) -> u64 {
@@ -179,6 +182,30 @@ pub fn stress_case(tier: Tier, seed: u64, k: u64) -> Stress {
             }
             s.push_str(" Nil }\n");
             Stress { class: kind, longest_list: n, text: s }
+        }
+        "long-rhs-late-lookahead" => {
+            // a chain of thousands of states exists before a new lookahead for its head arrives
+            // (the recursion through Payload adds $B to the lookaheads of the first item late)
+            let want = scale(21_000, &mut rng);
+            let (text, n) = fit(
+                |n| format!("start Packet\nstruct Packet({}Payload _: $B)\nenum Payload {{ Nothing Nested(Packet) }}\nterminal Tok {{ $T: () $B: () }}\n", "$T ".repeat(n)),
+                want,
+            );
+            Stress { class: kind, longest_list: n, text }
+        }
+        "chain-grammar-with-back-edge" => {
+            let n = scale(1_900, &mut rng);
+            let mut s = String::from("start N0\nterminal Tok { $A: () $B: () }\n");
+            for i in 0..n {
+                s.push_str(&format!("struct N{i}($A N{})\n", i + 1));
+            }
+            s.push_str(&format!("enum N{n} {{ End($B) Back($A N0 $B) }}\n"));
+            Stress { class: kind, longest_list: n, text: s }
+        }
+        "long-rhs-left-recursive" => {
+            let want = scale(21_000, &mut rng);
+            let (text, n) = fit(|n| format!("start L\nenum L {{ Base({}) Rec(L $B) Wrap($B L $T) }}\nterminal Tok {{ $T: () $B: () }}\n", "$T ".repeat(n)), want);
+            Stress { class: kind, longest_list: n, text }
         }
         "many-start-statements" => {
             let n = scale(1_990, &mut rng);
